@@ -9,6 +9,7 @@ mod ovr;
 mod pinfo;
 mod ptot;
 mod sx;
+mod tmpl;
 mod swev;
 
 fn main() {
@@ -26,6 +27,7 @@ fn main() {
         "ovr" => ovr::run(&args[2..]),
         "ptot" => ptot::run(&args[2..]),
         "sx" => sx::run(&args[2..]),
+        "tmpl" => tmpl::run(&args[2..]),
         other => {
             eprintln!("unknown subcommand {other}");
             std::process::exit(2);
